@@ -1,0 +1,389 @@
+//go:build verif
+
+package tls
+
+// Verification hook (add-only, build tag verif): exposes marshal/unmarshal of
+// every handshake message type and of both session-state types through one
+// exported value type, so that an external harness can build arbitrary message
+// values, obtain their encodings and feed arbitrary bytes to the decoders.
+
+// Message kinds understood by VerifMarshal / VerifUnmarshal.
+const (
+	VerifKindFinished = iota
+	VerifKindClientKeyExchange
+	VerifKindServerKeyExchange
+	VerifKindCertificateStatus
+	VerifKindServerHelloDone
+	VerifKindHelloRequest
+	VerifKindEndOfEarlyData
+	VerifKindKeyUpdate
+	VerifKindCertificateVerify
+	VerifKindNewSessionTicket
+	VerifKindCertificateRequest
+	VerifKindCertificate
+	VerifKindSessionState
+	VerifKindEncryptedExtensions
+	VerifKindNewSessionTicketTLS13
+	VerifKindCertificateRequestTLS13
+	VerifKindCertificateTLS13
+	VerifKindSessionStateTLS13
+	VerifKindServerHello
+	VerifKindClientHello
+	VerifNumKinds
+)
+
+type VerifKeyShare struct {
+	Group uint16
+	Data  []byte
+}
+
+type VerifPSKIdentity struct {
+	Label               []byte
+	ObfuscatedTicketAge uint32
+}
+
+// VerifMsg is the union of the fields of all message and session-state types.
+// Go strings are carried as byte slices. nil and empty slices are kept apart.
+type VerifMsg struct {
+	// flag that selects the pre-/post-TLS 1.2 layout (certificateRequestMsg, certificateVerifyMsg)
+	HasSignatureAlgorithm bool
+
+	// simple messages
+	VerifyData         []byte // finishedMsg
+	Ciphertext         []byte // clientKeyExchangeMsg
+	Key                []byte // serverKeyExchangeMsg
+	Response           []byte // certificateStatusMsg
+	UpdateRequested    bool   // keyUpdateMsg
+	SignatureAlgorithm uint16 // certificateVerifyMsg
+	Signature          []byte // certificateVerifyMsg
+	Ticket             []byte // newSessionTicketMsg
+	LifetimeHint       uint32 // newSessionTicketMsg
+	CertificateTypes   []byte // certificateRequestMsg
+	Certificates       [][]byte
+	// certificateMsg, sessionState; certificateMsgTLS13/sessionStateTLS13: Certificate.Certificate
+
+	// newSessionTicketMsgTLS13
+	Lifetime     uint32
+	AgeAdd       uint32
+	Nonce        []byte
+	Label        []byte
+	MaxEarlyData uint32
+
+	// session states
+	CreatedAt        uint64
+	MasterSecret     []byte
+	ResumptionSecret []byte
+
+	// certificateMsgTLS13 / sessionStateTLS13 (Certificate)
+	OCSPStaple []byte   // nil = absent
+	SCTList    [][]byte // nil = absent; also serverHelloMsg.scts
+
+	// hellos, encrypted extensions, certificate requests
+	Vers                             uint16
+	Random                           []byte
+	SessionID                        []byte
+	CipherSuites                     []uint16
+	CipherSuite                      uint16
+	CompressionMethods               []byte
+	CompressionMethod                uint8
+	ServerName                       []byte
+	OCSPStapling                     bool
+	SupportedCurves                  []uint16
+	SupportedPoints                  []byte
+	TicketSupported                  bool
+	SessionTicket                    []byte
+	SupportedSignatureAlgorithms     []uint16
+	SupportedSignatureAlgorithmsCert []uint16
+	SecureRenegotiationSupported     bool
+	SecureRenegotiation              []byte
+	ExtendedRandomEnabled            bool
+	ExtendedRandom                   []byte
+	ExtendedMasterSecret             bool
+	ALPNProtocols                    [][]byte
+	ALPNProtocol                     []byte
+	SCTs                             bool
+	SupportedVersions                []uint16
+	SupportedVersion                 uint16
+	Cookie                           []byte
+	KeyShares                        []VerifKeyShare
+	ServerShare                      VerifKeyShare
+	SelectedIdentityPresent          bool
+	SelectedIdentity                 uint16
+	SelectedGroup                    uint16
+	EarlyData                        bool
+	PSKModes                         []byte
+	PSKIdentities                    []VerifPSKIdentity
+	PSKBinders                       [][]byte
+	CertificateAuthorities           [][]byte
+	UnknownExtensions                [][]byte
+}
+
+func verifU16s[T ~uint16](in []T) []uint16 {
+	if in == nil {
+		return nil
+	}
+	out := make([]uint16, len(in))
+	for i, x := range in {
+		out[i] = uint16(x)
+	}
+	return out
+}
+
+func verifSchemes(in []uint16) []SignatureScheme {
+	if in == nil {
+		return nil
+	}
+	out := make([]SignatureScheme, len(in))
+	for i, x := range in {
+		out[i] = SignatureScheme(x)
+	}
+	return out
+}
+
+func verifCurves(in []uint16) []CurveID {
+	if in == nil {
+		return nil
+	}
+	out := make([]CurveID, len(in))
+	for i, x := range in {
+		out[i] = CurveID(x)
+	}
+	return out
+}
+
+func verifStrings(in [][]byte) []string {
+	if in == nil {
+		return nil
+	}
+	out := make([]string, len(in))
+	for i, x := range in {
+		out[i] = string(x)
+	}
+	return out
+}
+
+func verifByteSlices(in []string) [][]byte {
+	if in == nil {
+		return nil
+	}
+	out := make([][]byte, len(in))
+	for i, x := range in {
+		out[i] = []byte(x)
+	}
+	return out
+}
+
+func verifStr(s string) []byte {
+	if s == "" {
+		return nil
+	}
+	return []byte(s)
+}
+
+type verifCodec interface {
+	marshal() []byte
+	unmarshal([]byte) bool
+}
+
+// verifBuild creates the message of the given kind from v (for marshal).
+func verifBuild(kind int, v *VerifMsg) verifCodec {
+	switch kind {
+	case VerifKindFinished:
+		return &finishedMsg{verifyData: v.VerifyData}
+	case VerifKindClientKeyExchange:
+		return &clientKeyExchangeMsg{ciphertext: v.Ciphertext}
+	case VerifKindServerKeyExchange:
+		return &serverKeyExchangeMsg{key: v.Key}
+	case VerifKindCertificateStatus:
+		return &certificateStatusMsg{response: v.Response}
+	case VerifKindServerHelloDone:
+		return &serverHelloDoneMsg{}
+	case VerifKindHelloRequest:
+		return &helloRequestMsg{}
+	case VerifKindEndOfEarlyData:
+		return &endOfEarlyDataMsg{}
+	case VerifKindKeyUpdate:
+		return &keyUpdateMsg{updateRequested: v.UpdateRequested}
+	case VerifKindCertificateVerify:
+		return &certificateVerifyMsg{hasSignatureAlgorithm: v.HasSignatureAlgorithm,
+			signatureAlgorithm: SignatureScheme(v.SignatureAlgorithm), signature: v.Signature}
+	case VerifKindNewSessionTicket:
+		return &newSessionTicketMsg{ticket: v.Ticket, lifetimeHint: v.LifetimeHint}
+	case VerifKindCertificateRequest:
+		return &certificateRequestMsg{hasSignatureAlgorithm: v.HasSignatureAlgorithm,
+			certificateTypes:             v.CertificateTypes,
+			supportedSignatureAlgorithms: verifSchemes(v.SupportedSignatureAlgorithms),
+			certificateAuthorities:       v.CertificateAuthorities}
+	case VerifKindCertificate:
+		return &certificateMsg{certificates: v.Certificates}
+	case VerifKindSessionState:
+		return &sessionState{vers: v.Vers, cipherSuite: v.CipherSuite, createdAt: v.CreatedAt,
+			masterSecret: v.MasterSecret, certificates: v.Certificates}
+	case VerifKindEncryptedExtensions:
+		return &encryptedExtensionsMsg{alpnProtocol: string(v.ALPNProtocol)}
+	case VerifKindNewSessionTicketTLS13:
+		return &newSessionTicketMsgTLS13{lifetime: v.Lifetime, ageAdd: v.AgeAdd, nonce: v.Nonce,
+			label: v.Label, maxEarlyData: v.MaxEarlyData}
+	case VerifKindCertificateRequestTLS13:
+		return &certificateRequestMsgTLS13{ocspStapling: v.OCSPStapling, scts: v.SCTs,
+			supportedSignatureAlgorithms:     verifSchemes(v.SupportedSignatureAlgorithms),
+			supportedSignatureAlgorithmsCert: verifSchemes(v.SupportedSignatureAlgorithmsCert),
+			certificateAuthorities:           v.CertificateAuthorities}
+	case VerifKindCertificateTLS13:
+		return &certificateMsgTLS13{ocspStapling: v.OCSPStapling, scts: v.SCTs,
+			certificate: Certificate{Certificate: v.Certificates, OCSPStaple: v.OCSPStaple,
+				SignedCertificateTimestamps: v.SCTList}}
+	case VerifKindSessionStateTLS13:
+		return &sessionStateTLS13{cipherSuite: v.CipherSuite, createdAt: v.CreatedAt,
+			resumptionSecret: v.ResumptionSecret,
+			certificate: Certificate{Certificate: v.Certificates, OCSPStaple: v.OCSPStaple,
+				SignedCertificateTimestamps: v.SCTList}}
+	case VerifKindServerHello:
+		return &serverHelloMsg{vers: v.Vers, random: v.Random, sessionId: v.SessionID,
+			cipherSuite: v.CipherSuite, compressionMethod: v.CompressionMethod,
+			ocspStapling: v.OCSPStapling, ticketSupported: v.TicketSupported,
+			secureRenegotiationSupported: v.SecureRenegotiationSupported,
+			secureRenegotiation:          v.SecureRenegotiation,
+			extendedMasterSecret:         v.ExtendedMasterSecret,
+			alpnProtocol:                 string(v.ALPNProtocol), scts: v.SCTList,
+			supportedVersion: v.SupportedVersion,
+			serverShare:      keyShare{group: CurveID(v.ServerShare.Group), data: v.ServerShare.Data},
+			selectedIdentityPresent: v.SelectedIdentityPresent, selectedIdentity: v.SelectedIdentity,
+			supportedPoints: v.SupportedPoints, cookie: v.Cookie, selectedGroup: CurveID(v.SelectedGroup),
+			unknownExtensions: v.UnknownExtensions}
+	case VerifKindClientHello:
+		m := &clientHelloMsg{vers: v.Vers, random: v.Random, sessionId: v.SessionID,
+			cipherSuites: v.CipherSuites, compressionMethods: v.CompressionMethods,
+			serverName: string(v.ServerName), ocspStapling: v.OCSPStapling,
+			supportedCurves: verifCurves(v.SupportedCurves), supportedPoints: v.SupportedPoints,
+			ticketSupported: v.TicketSupported, sessionTicket: v.SessionTicket,
+			supportedSignatureAlgorithms:     verifSchemes(v.SupportedSignatureAlgorithms),
+			supportedSignatureAlgorithmsCert: verifSchemes(v.SupportedSignatureAlgorithmsCert),
+			secureRenegotiationSupported:     v.SecureRenegotiationSupported,
+			secureRenegotiation:              v.SecureRenegotiation,
+			extendedRandomEnabled:            v.ExtendedRandomEnabled,
+			extendedRandom:                   v.ExtendedRandom,
+			extendedMasterSecret:             v.ExtendedMasterSecret,
+			alpnProtocols:                    verifStrings(v.ALPNProtocols),
+			scts:                             v.SCTs, supportedVersions: v.SupportedVersions, cookie: v.Cookie,
+			earlyData: v.EarlyData, pskModes: v.PSKModes, pskBinders: v.PSKBinders}
+		for _, ks := range v.KeyShares {
+			m.keyShares = append(m.keyShares, keyShare{group: CurveID(ks.Group), data: ks.Data})
+		}
+		for _, id := range v.PSKIdentities {
+			m.pskIdentities = append(m.pskIdentities, pskIdentity{label: id.Label, obfuscatedTicketAge: id.ObfuscatedTicketAge})
+		}
+		return m
+	}
+	return nil
+}
+
+// verifExport reads the fields of a message back into a VerifMsg.
+func verifExport(m verifCodec) *VerifMsg {
+	v := &VerifMsg{}
+	switch m := m.(type) {
+	case *finishedMsg:
+		v.VerifyData = m.verifyData
+	case *clientKeyExchangeMsg:
+		v.Ciphertext = m.ciphertext
+	case *serverKeyExchangeMsg:
+		v.Key = m.key
+	case *certificateStatusMsg:
+		v.Response = m.response
+	case *serverHelloDoneMsg, *helloRequestMsg, *endOfEarlyDataMsg:
+	case *keyUpdateMsg:
+		v.UpdateRequested = m.updateRequested
+	case *certificateVerifyMsg:
+		v.HasSignatureAlgorithm = m.hasSignatureAlgorithm
+		v.SignatureAlgorithm = uint16(m.signatureAlgorithm)
+		v.Signature = m.signature
+	case *newSessionTicketMsg:
+		v.Ticket = m.ticket
+		v.LifetimeHint = m.lifetimeHint
+	case *certificateRequestMsg:
+		v.HasSignatureAlgorithm = m.hasSignatureAlgorithm
+		v.CertificateTypes = m.certificateTypes
+		v.SupportedSignatureAlgorithms = verifU16s(m.supportedSignatureAlgorithms)
+		v.CertificateAuthorities = m.certificateAuthorities
+	case *certificateMsg:
+		v.Certificates = m.certificates
+	case *sessionState:
+		v.Vers, v.CipherSuite, v.CreatedAt = m.vers, m.cipherSuite, m.createdAt
+		v.MasterSecret, v.Certificates = m.masterSecret, m.certificates
+	case *encryptedExtensionsMsg:
+		v.ALPNProtocol = verifStr(m.alpnProtocol)
+	case *newSessionTicketMsgTLS13:
+		v.Lifetime, v.AgeAdd, v.Nonce, v.Label, v.MaxEarlyData = m.lifetime, m.ageAdd, m.nonce, m.label, m.maxEarlyData
+	case *certificateRequestMsgTLS13:
+		v.OCSPStapling, v.SCTs = m.ocspStapling, m.scts
+		v.SupportedSignatureAlgorithms = verifU16s(m.supportedSignatureAlgorithms)
+		v.SupportedSignatureAlgorithmsCert = verifU16s(m.supportedSignatureAlgorithmsCert)
+		v.CertificateAuthorities = m.certificateAuthorities
+	case *certificateMsgTLS13:
+		v.OCSPStapling, v.SCTs = m.ocspStapling, m.scts
+		v.Certificates, v.OCSPStaple, v.SCTList = m.certificate.Certificate, m.certificate.OCSPStaple, m.certificate.SignedCertificateTimestamps
+	case *sessionStateTLS13:
+		v.CipherSuite, v.CreatedAt, v.ResumptionSecret = m.cipherSuite, m.createdAt, m.resumptionSecret
+		v.Certificates, v.OCSPStaple, v.SCTList = m.certificate.Certificate, m.certificate.OCSPStaple, m.certificate.SignedCertificateTimestamps
+	case *serverHelloMsg:
+		v.Vers, v.Random, v.SessionID, v.CipherSuite, v.CompressionMethod = m.vers, m.random, m.sessionId, m.cipherSuite, m.compressionMethod
+		v.OCSPStapling, v.TicketSupported = m.ocspStapling, m.ticketSupported
+		v.SecureRenegotiationSupported, v.SecureRenegotiation = m.secureRenegotiationSupported, m.secureRenegotiation
+		v.ExtendedMasterSecret, v.ALPNProtocol, v.SCTList = m.extendedMasterSecret, verifStr(m.alpnProtocol), m.scts
+		v.SupportedVersion = m.supportedVersion
+		v.ServerShare = VerifKeyShare{Group: uint16(m.serverShare.group), Data: m.serverShare.data}
+		v.SelectedIdentityPresent, v.SelectedIdentity = m.selectedIdentityPresent, m.selectedIdentity
+		v.SupportedPoints, v.Cookie, v.SelectedGroup = m.supportedPoints, m.cookie, uint16(m.selectedGroup)
+		v.UnknownExtensions = m.unknownExtensions
+	case *clientHelloMsg:
+		v.Vers, v.Random, v.SessionID, v.CipherSuites, v.CompressionMethods = m.vers, m.random, m.sessionId, m.cipherSuites, m.compressionMethods
+		v.ServerName, v.OCSPStapling = verifStr(m.serverName), m.ocspStapling
+		v.SupportedCurves, v.SupportedPoints = verifU16s(m.supportedCurves), m.supportedPoints
+		v.TicketSupported, v.SessionTicket = m.ticketSupported, m.sessionTicket
+		v.SupportedSignatureAlgorithms = verifU16s(m.supportedSignatureAlgorithms)
+		v.SupportedSignatureAlgorithmsCert = verifU16s(m.supportedSignatureAlgorithmsCert)
+		v.SecureRenegotiationSupported, v.SecureRenegotiation = m.secureRenegotiationSupported, m.secureRenegotiation
+		v.ExtendedRandomEnabled, v.ExtendedRandom = m.extendedRandomEnabled, m.extendedRandom
+		v.ExtendedMasterSecret = m.extendedMasterSecret
+		v.ALPNProtocols = verifByteSlices(m.alpnProtocols)
+		v.SCTs, v.SupportedVersions, v.Cookie = m.scts, m.supportedVersions, m.cookie
+		for _, ks := range m.keyShares {
+			v.KeyShares = append(v.KeyShares, VerifKeyShare{Group: uint16(ks.group), Data: ks.data})
+		}
+		v.EarlyData, v.PSKModes, v.PSKBinders = m.earlyData, m.pskModes, m.pskBinders
+		for _, id := range m.pskIdentities {
+			v.PSKIdentities = append(v.PSKIdentities, VerifPSKIdentity{Label: id.label, ObfuscatedTicketAge: id.obfuscatedTicketAge})
+		}
+		v.UnknownExtensions = m.unknownExtensions
+	}
+	return v
+}
+
+// VerifMarshal builds the message of the given kind from v and marshals it.
+// ok is false when marshal panicked (a field does not fit its length prefix).
+func VerifMarshal(kind int, v *VerifMsg) (out []byte, ok bool) {
+	m := verifBuild(kind, v)
+	if m == nil {
+		return nil, false
+	}
+	defer func() {
+		if r := recover(); r != nil {
+			out, ok = nil, false
+		}
+	}()
+	return m.marshal(), true
+}
+
+// VerifUnmarshal feeds data to the decoder of the given kind (a fresh message
+// value; hasSignatureAlgorithm preset for the two types that take it as input)
+// and returns the decoded fields when the decoder accepts.
+func VerifUnmarshal(kind int, hasSignatureAlgorithm bool, data []byte) (*VerifMsg, bool) {
+	m := verifBuild(kind, &VerifMsg{HasSignatureAlgorithm: hasSignatureAlgorithm})
+	if m == nil {
+		return nil, false
+	}
+	if !m.unmarshal(data) {
+		return nil, false
+	}
+	return verifExport(m), true
+}
